@@ -113,6 +113,65 @@ def _call_again(ctx, qualname, args, kwargs=None):
 
 
 # ================================================================================================
+# callee contracts (summaries)
+
+
+def read_neighbors_contract(interp, args, kwargs):
+    """Callee contract of PyMatterSim.neighbors.read_neighbors.read_neighbors(f, nparticle, Nmax=200) for a neighbour-LIST
+    file (header contains the word `neighborlist`; the only kind the vector functions can use, because the entries are
+    used as array indices) — the contract planned for C05 (DESIGN Part II, C05 "File hand-off"):
+      requires  f is an open text handle positioned at a frame header; rows `id cn v_1 .. v_cn`, every id in 1..nparticle
+                exactly once, every v in 1..nparticle;
+      ensures   an integer array of shape (nparticle, 1 + M), M = min(max_i cn_i, Nmax); row i: [min(cn_i, Nmax), v_1 - 1, ...]
+                zero padded: 0 <= row[0] <= M, 0 <= row[1+k] < nparticle for k < row[0], row[1+k] = 0 for k >= row[0];
+                the handle is advanced by one frame.
+    The array is represented as an arbitrary array with these bounds: raw uninterpreted entries clamped into their range
+    (every array satisfying the bounds is of this form), so the facts hold at every index without quantifiers."""
+    from pyvc.interp import Ref
+    from pyvc.state import Content, cur
+    f, n = args[0], args[1]
+    nmax = kwargs.get("Nmax", args[2] if len(args) > 2 else 200)
+    st = cur()
+    ok = isinstance(f, Ref) and f.kind == "file" and "r" in str(f.content.get("mode", "r"))
+    st.require(bool(ok), "call:read_neighbors:pre(open-readable-handle)")
+    st.require(sv.cmp(">=", n, 1), "call:read_neighbors:pre(nparticle>=1)")
+    pos = f.content.get("pos", 0) if ok else 0
+    M = sv.integer(f"maxcn{pos}")
+    st.assume(sv.and_(sv.cmp(">=", M, 0), sv.cmp("<=", M, nmax)))
+    cnraw = z3.Function(f"cnraw{pos}", z3.IntSort(), z3.IntSort())
+    nbraw = z3.Function(f"nbraw{pos}", z3.IntSort(), z3.IntSort(), z3.IntSort())
+
+    def clamp(x, lo, hi):
+        return sv.maxv(lo, sv.minv(x, hi))
+
+    def cn(i):
+        return clamp(sv.SV(cnraw(sv.znum(i))), 0, M)
+
+    def nb(i, k):
+        return clamp(sv.SV(nbraw(sv.znum(i), sv.znum(k))), 0, sv.sub(n, 1))
+
+    def elem(idx):
+        i, j = idx
+        k = A.simp(sv.sub(j, 1))
+        body = sv.ite(sv.cmp("<", k, cn(i)), lambda: nb(i, k), 0)
+        if sv.is_conc(j):
+            return cn(i) if int(j) == 0 else body
+        return sv.ite(sv.cmp("==", j, 0), lambda: cn(i), body)
+    arr = A.new_arr((n, A.simp(sv.add(1, M))), elem, "int")
+    if ok:
+        c = st.heap[f.sid]
+        st.heap[f.sid] = Content("file", dict(c.data, pos=pos + 1), c.meta)
+    calls = getattr(interp, "c15_neighbor_reads", None)
+    if calls is None:
+        calls = interp.c15_neighbor_reads = {}
+    calls[pos] = dict(cn=cn, nb=nb, M=M, arr=arr, n=n)
+    return arr
+
+
+READ_NEIGHBORS = "PyMatterSim.neighbors.read_neighbors.read_neighbors"
+
+
+# ================================================================================================
 # participation_ratio
 
 
@@ -256,7 +315,231 @@ def _replay_pr(case, clause, model, seed):
     return {"ran": True, "failed": False, "searched": tried, "detail": "real code satisfies every clause on the model inputs and the seeded inputs"}
 
 
-UNITS = [ParticipationRatio()]
+# ================================================================================================
+# neighbour-list based measures: shared pieces
+
+
+def _nbinfo(ctx):
+    calls = getattr(ctx.interp, "c15_neighbor_reads", None) or {}
+    return calls.get(0)
+
+
+def _nb_index(nbi, p, k):
+    """neighbour number k of particle p: entry 1+k of row p of the array returned by read_neighbors"""
+    return nbi["arr"].get((p, A.simp(sv.add(1, k))))
+
+
+def _write_neighbor_file(path, lists):
+    with open(path, "w", encoding="utf-8") as f:
+        f.write("id     cn     neighborlist\n")
+        for i, l in enumerate(lists):
+            f.write("%d %d " % (i + 1, len(l)))
+            f.write(" ".join(str(j + 1) for j in l))
+            f.write("\n")
+
+
+def _neighbors_from_model(model, N, rng, first, min_cn=1):
+    """neighbour lists (0-based) from the model's raw tables (clamped exactly like the contract), else seeded"""
+    lists = []
+    cn_e, cn_else = _func_entries(model, "cnraw0") if first else ([], None)
+    nb_e, nb_else = _func_entries(model, "nbraw0") if first else ([], None)
+    use_model = bool(cn_e or nb_e or cn_else is not None)
+    M = model.get("maxcn0") if first else None
+    M = int(_fr(M, 6)) if M is not None else 6
+    M = max(min_cn, min(M, 12))
+    for i in range(N):
+        if use_model:
+            cn = next((e[1] for e in cn_e if e[0] == i), cn_else)
+            cn = int(_fr(cn, rng.randint(min_cn, min(M, 4))))
+            cn = max(min_cn, min(cn, M))
+            row = []
+            for k in range(cn):
+                v = next((e[2] for e in nb_e if e[0] == i and e[1] == k), nb_else)
+                v = int(_fr(v, rng.randrange(N)))
+                row.append(max(0, min(v, N - 1)))
+        else:
+            cn = rng.randint(min_cn, max(min_cn, min(5, N + 1)))
+            row = [rng.randrange(N) for _ in range(cn)]
+        lists.append(row)
+    return lists
+
+
+class _NeighborUnit(Unit):
+    module = MOD
+    prop = "C15"
+    timeout = 20
+    summaries = {READ_NEIGHBORS: read_neighbors_contract}
+
+    def cases(self):
+        return ["d=2", "d=3"]
+
+    def setup(self, ctx, case):
+        d = int(case[2])
+        N = ctx.int("N")
+        ctx.assume(N >= 1)
+        E = ctx.array("e", (N, d), "float", origin="argument vector")
+        return [E, "neighborlist.dat"], {}, dict(d=d, N=N, E=E, watch=[E.sid])
+
+
+# ================================================================================================
+# local_vector_alignment
+
+
+class LocalAlignment(_NeighborUnit):
+    qualname = "local_vector_alignment"
+
+    def clause_names(self, case):
+        return ["shape", "a:alignment_i=mean_j(e_i.e_j)", "frame:input-not-written", "neighbour-file-read-once"]
+
+    def ensures(self, ctx, case, inp, out):
+        d, N, E = inp["d"], inp["N"], inp["E"]
+        res = out.value
+        nbi = _nbinfo(ctx)
+        ok = isinstance(res, A.Arr) and res.ndim == 1 and A.dim_eq_syntactic(res.shape[0], N) and nbi is not None
+        yield "shape", bool(ok)
+        if not ok:
+            return
+        er = E.reader()
+        p = ctx.int("p")
+        cn = nbi["cn"](p)
+        want = sv.div(Sum(0, cn, lambda k: _dot([er((p, c)) for c in range(d)], [er((_nb_index(nbi, p, k), c)) for c in range(d)])), cn)
+        inr = sv.and_(sv.cmp(">=", p, 0), sv.cmp("<", p, N), sv.cmp(">=", cn, 1))
+        yield "a:alignment_i=mean_j(e_i.e_j)", sv.implies(inr, sv.cmp("==", res.get((p,)), want))
+        stores = [e for e in out.state.events if e[0] == "store" and e[1] in inp["watch"]]
+        yield "frame:input-not-written", len(stores) == 0
+        yield "neighbour-file-read-once", len(getattr(ctx.interp, "c15_neighbor_reads", {})) == 1
+
+    def replay(self, case, clause, model, seed):
+        return _replay_nb(self.qualname, case, clause, model, seed)
+
+
+# ================================================================================================
+# phase_quotient
+
+
+class PhaseQuotient(_NeighborUnit):
+    qualname = "phase_quotient"
+
+    def clause_names(self, case):
+        return ["a:PQ=sum(e_i.e_j)/sum|e_i.e_j|", "b:-1<=PQ<=1", "ind:|sum_j x|<=sum_j|x|:base", "ind:|sum_j x|<=sum_j|x|:step",
+                "ind:|sum_i X_i|<=sum_i Y_i:base", "ind:|sum_i X_i|<=sum_i Y_i:step", "frame:input-not-written"]
+
+    def ensures(self, ctx, case, inp, out):
+        d, N, E = inp["d"], inp["N"], inp["E"]
+        pq = out.value
+        nbi = _nbinfo(ctx)
+        er = E.reader()
+
+        def x(i, k):                    # e_i . e_nb(i,k)
+            return _dot([er((i, c)) for c in range(d)], [er((_nb_index(nbi, i, k), c)) for c in range(d)])
+
+        def X(i, m=None):               # inner sums over the first m neighbours (default: all CN_i)
+            return Sum(0, nbi["cn"](i) if m is None else m, lambda k: x(i, k))
+
+        def Y(i, m=None):
+            return Sum(0, nbi["cn"](i) if m is None else m, lambda k: sv.absv(x(i, k)))
+        num = Sum(0, N, lambda i: X(i))
+        den = Sum(0, N, lambda i: Y(i))
+        yield "a:PQ=sum(e_i.e_j)/sum|e_i.e_j|", sv.cmp("==", pq, sv.div(num, den))
+        # ---- |PQ| <= 1: triangle inequality, twice by induction (inner: over neighbours of a fixed particle i; outer: over particles)
+        i0 = ctx.int("i0")
+        absle = lambda a, b: sv.and_(sv.cmp("<=", a, b), sv.cmp("<=", sv.neg(a), b))
+        P_in = lambda n, S: absle(S[0], S[1])
+        f_in = [lambda k: x(i0, k), lambda k: sv.absv(x(i0, k))]
+        for g in _induct("|sum_j x|<=sum_j|x|", f_in, P_in, lambda k: [x(i0, k)]):
+            yield g
+        # outer step: uses the inner conclusion at particle k (i0 := k, n := CN_k), an instance of the lemma above
+        f_out = [lambda i: X(i), lambda i: Y(i)]
+        name = "|sum_i X_i|<=sum_i Y_i"
+        tag = re.sub(r"[^A-Za-z0-9]+", "_", name)
+        k = sv.integer("k_" + tag)
+        S = [sv.real(f"S{j}_{tag}") for j in range(2)]
+        inner_at_k = absle(X(k), Y(k))
+        step = sv.implies(sv.and_(inner_at_k, P_in(0, S)), P_in(0, [sv.add(S[0], X(k)), sv.add(S[1], Y(k))]))
+        step, _ = sv.generalize(step, [X(k), Y(k)])
+        yield f"ind:{name}:base", P_in(0, [0, 0])
+        yield f"ind:{name}:step", step
+        concl = absle(num, den)
+        g, _ = sv.generalize(sv.implies(sv.and_(concl, sv.cmp(">", den, 0)), sv.and_(sv.cmp("<=", pq, 1), sv.cmp(">=", pq, -1))), [num, den])
+        yield "b:-1<=PQ<=1", g
+        stores = [e for e in out.state.events if e[0] == "store" and e[1] in inp["watch"]]
+        yield "frame:input-not-written", len(stores) == 0
+
+    def replay(self, case, clause, model, seed):
+        return _replay_nb(self.qualname, case, clause, model, seed)
+
+
+def _replay_nb(qualname, case, clause, model, seed):
+    """replay of local_vector_alignment / phase_quotient on the real code with a real neighbour file"""
+    import importlib
+    import os
+    import random
+    import tempfile
+
+    import numpy as np
+    V = importlib.import_module(MOD)
+    fn = getattr(V, qualname)
+    d = int(case[2])
+    rng = random.Random(seed)
+    tmp = tempfile.mkdtemp(prefix="pyvc-c15-")
+    path = os.path.join(tmp, "neighborlist.dat")
+    tried = 0
+    try:
+        for k in range(200):
+            first = k == 0 and model.get("N") is not None
+            if first:
+                N = max(1, min(int(_fr(model.get("N"), 3)), 30))
+                e = _arr_from_model(model, "e", (N, d), rng)
+            else:
+                N = rng.choice([1, 2, 3, 5, 9, 24])
+                e = np.array([[rng.uniform(-2, 2) for _ in range(d)] for _ in range(N)])
+                if k % 5 == 1:
+                    e[:] = [rng.uniform(0.5, 2) for _ in range(d)]      # uniform field
+                if k % 5 == 2:
+                    e = e * np.array([[(-1) ** i] for i in range(N)])   # staggered
+            lists = _neighbors_from_model(model, N, rng, first)
+            _write_neighbor_file(path, lists)
+            keep = e.copy()
+            tried += 1
+            try:
+                got = fn(e, path)
+            except Exception as ex:
+                return {"ran": True, "failed": True, "searched": tried, "from_model": first,
+                        "inputs": {"vector": keep.tolist(), "neighbors": lists}, "detail": f"raises {type(ex).__name__}: {ex}"}
+            dots = [[sum(keep[i][c] * keep[j][c] for c in range(d)) for j in lists[i]] for i in range(N)]
+            bad = None
+            if qualname == "local_vector_alignment":
+                got = np.asarray(got, dtype=float)
+                if got.shape != (N,):
+                    bad = f"shape {got.shape}, expected ({N},)"
+                else:
+                    for i in range(N):
+                        want = sum(dots[i]) / len(dots[i])
+                        if abs(got[i] - want) > 1e-9 * max(1.0, abs(want)):
+                            bad = f"alignment[{i}] = {got[i]!r}, mean neighbour dot product = {want!r}"
+                            break
+            else:
+                num = sum(sum(r) for r in dots)
+                den = sum(sum(abs(v) for v in r) for r in dots)
+                if den > 0:
+                    want = num / den
+                    g = float(got)
+                    if abs(g - want) > 1e-9 * max(1.0, abs(want)):
+                        bad = f"phase quotient = {g!r}, definition gives {want!r}"
+                    elif not (-1 - 1e-9 <= g <= 1 + 1e-9):
+                        bad = f"phase quotient = {g!r} outside [-1, 1]"
+            if bad is None and not np.array_equal(keep, e):
+                bad = "the input array was modified"
+            if bad:
+                return {"ran": True, "failed": True, "searched": tried, "from_model": first,
+                        "inputs": {"vector": keep.tolist(), "neighbors": lists}, "detail": bad}
+    finally:
+        import shutil
+        shutil.rmtree(tmp, ignore_errors=True)
+    return {"ran": True, "failed": False, "searched": tried, "detail": "real code satisfies every clause on the model inputs and the seeded inputs"}
+
+
+UNITS = [ParticipationRatio(), LocalAlignment(), PhaseQuotient()]
 
 MANIFEST = {
     "text": "",
